@@ -13,7 +13,11 @@ NEED_SHAPES = [
 ] + [f"values:{p}:{c}" for p in ("sum-zero", "all-zero", "all-equal", "single-nonzero", "alternating", "top-coeff-zero", "monomial")
      for c in ("single", "small-poly", "large-poly")] \
   + [f"boundary:{seg}:{rep}:{sh}" for seg in ("main", "aux") for rep in ("single-value", "small-poly", "large-poly")
-     for sh in ("divisor-shared", "divisor-unshared")]
+     for sh in ("divisor-shared", "divisor-unshared")] \
+  + [f"lagrange:n={1 << v}:{what}:prover-rows" for v in (3, 4, 6, 8) for what in [f"k={k}" for k in range(v)] + ["boundary", "all"]] \
+  + [f"lagrange:n={1 << v}:verifier-ood" for v in (3, 4, 6, 8)] \
+  + ["lagrange:ext=None", "lagrange:ext=Quadratic", "lagrange:other-aux-columns=yes", "lagrange:other-aux-columns=no",
+     "lagrange:ce_blowup<lde_blowup"]
 
 
 def _falsify(ctx, hb, budget):
@@ -55,14 +59,18 @@ def run(ctx):
                 "(summing to zero, all zero, all equal, one non-zero, alternating, top coefficient zero, monomial) for 1, 2, 4, 8, 32, 64, 128 values with "
                 "zero and non-zero first step, so that vanishing coefficients of the assertion polynomials are exercised in every representation, and the matrix "
                 "{main, aux segment} x {single value, small polynomial, large polynomial} x {divisor shared with a group of the other segment or not} "
-                "(auxiliary periodic / sequence assertions through a wrapper AIR around the family); "
+                "(auxiliary periodic / sequence assertions through a wrapper AIR around the family); Lagrange-kernel members (harness/src/lagfam.rs, n = 8, 16, 64, 256, "
+                "base field and quadratic extension): rows of evaluate() with every Lagrange transition constraint k isolated, the Lagrange boundary constraint "
+                "isolated and everything together vs a from-scratch definition (numerator r[v-k] L(x) - (1-r[v-k]) L(g^(2^(v-k)) x), divisor = product over the "
+                "subgroup of size 2^(k-1)), CompositionPoly at random z, and real proofs (coefficients = coin draws in the real order, OOD Lagrange frame = "
+                "L(z), L(gz), L(g^2 z).., verify accepts / rejects a changed Lagrange frame entry); "
                 "correspondence: whole evaluate(), CompositionPoly::new/evaluate_at/recombination, BoundaryConstraintGroup::evaluate_at and "
                 "TransitionConstraints::combine_evaluations against the extracted Gallina model over f64; distinct = distinct case lines")
     ctx.assumptions += [
         "base field and extension field are identified in the model (mul_base / E::from are the identity); extension-field behaviour is covered by the falsifier only",
         "fft::evaluate_poly_with_offset / interpolate_poly_with_offset compute the DFT / inverse DFT over the coset (property C09); the model uses the direct formulas",
         "capstone C17_composition_is_definition: interpolation is C09's FFT model (round trip discharged from C09_interpolate_with_offset_spec / C09_get_inv_twiddles), the polynomial form of comp_def is discharged from validity through C01_air_quotient_exists; remaining explicit hypotheses: root-of-unity relations + odd characteristic, trace LDE rows = trace polynomials on the LDE coset, numerators given as coefficient lists vanishing on the enforced steps with quotient lengths <= min(|ce|, columns*n), ce coset disjoint from the trace domain",
-        "Lagrange-kernel constraints: additive hooks in the model (lagrange_acc / lagrange_term) only; no theorem, no family member uses them",
+        "Lagrange-kernel constraints: row-level (C17_lagrange_row_spec), verifier-level (C17_verifier_lagrange_agrees) and table+hook (C17_table_with_lagrange) theorems; the capstone is not extended to them (lag_def as a polynomial quotient is not proved)",
         "the trace LDE rows are the trace polynomials evaluated over the LDE coset (C09); given to the model as data in the correspondence",
     ]
     ctx.audit_sources()
@@ -81,7 +89,7 @@ def run(ctx):
             if " => " in l:
                 ops[l.split(" ", 1)[0]] = ops.get(l.split(" ", 1)[0], 0) + 1
         ctx.notes["correspondence_ops"] = ops
-        ctx.ob("corr-covers-all-ops", all(ops.get(k, 0) > 0 for k in ("eval", "split", "vgroup", "tcomb")), json.dumps(ops))
+        ctx.ob("corr-covers-all-ops", all(ops.get(k, 0) > 0 for k in ("eval", "split", "vgroup", "tcomb", "lag")), json.dumps(ops))
     if hb:
         budget = (20000 if quick else 400000) * (3 if ctx.broken() else 1)
         _falsify(ctx, hb, budget)
@@ -89,8 +97,9 @@ def run(ctx):
         "theorems": "periodic_row_spec, boundary_repr_equiv, column_split_recombine (+ truncation form), verifier_eval_agrees (aux / main only), "
                     "table_row_spec (multi-segment) and table_row_spec_single_segment, composition_is_definition (single-segment) and "
                     "composition_is_definition_aux (interpolation from C09, polynomial form from validity via C01), "
-                    "composition_is_definition_partial (abstract interpolation hypotheses); all for any field with FLaws and all sizes",
-        "correspondence_only": "Lagrange-kernel constraints (hooks in the model, not exercised); extension fields (falsifier)",
+                    "composition_is_definition_partial (abstract interpolation hypotheses), group_merge_value_preserving, lde_rows_from_segments, "
+                    "lagrange_row_spec, verifier_lagrange_agrees, table_with_lagrange; all for any field with FLaws and all sizes",
+        "correspondence_only": "extension fields (falsifier; every theorem is over one abstract field, the E != B transport lemma is not proved); the capstone for the Lagrange terms",
         "falsifier_mutation_tests": "notes/C17.design.md: 9 seeded changes on a private copy of /repo, all reported at the quick budget",
     }
     ctx.trusted.insert(0, "Coq 8.16.1 kernel; Print Assumptions under every theorem")
